@@ -231,11 +231,40 @@ def pick_other(used, n=1):
     raise AnalysisError("no free OTHER symbol")
 
 
+class EscapedDomain:
+    """Regular domain: texts in which every `lead` character is followed by
+    one of `allowed` (e.g. RFC 5545 TEXT: backslash only in \\\\ \\; \\, \\n \\N),
+    intersected with factor avoidance."""
+
+    def __init__(self, lead, allowed, avoid=(), forbidden=""):
+        self.lead, self.allowed = lead, set(allowed)
+        self.forbidden = set(forbidden)
+        self.av = AvoidDFA(avoid)
+        self.init = (self.av.init, 0)
+
+    def step(self, st, ch):
+        a, q = st
+        a2 = self.av.step(a, ch)
+        if a2 is None or ch in self.forbidden:
+            return None
+        if q == 1:
+            return (a2, 0) if ch in self.allowed else None
+        return (a2, 1) if ch == self.lead else (a2, 0)
+
+    def accepting(self, st):
+        return st[1] == 0
+
+    def chars(self):
+        return self.av.chars() | {self.lead} | self.allowed | self.forbidden
+
+
 def equivalent(A: Chain, B: Chain, avoid=(), extra_chars="", n_other=1,
-               max_states=400000):
-    """A ≡ B on all strings that contain no factor of `avoid`.
-    Returns (True, None, nstates) or (False, witness, nstates)."""
-    D = AvoidDFA(avoid)
+               max_states=400000, domain=None):
+    """A ≡ B on all strings that contain no factor of `avoid` (or on the
+    given regular domain).  Returns (True, None, nstates) or
+    (False, witness, nstates)."""
+    D = domain if domain is not None else AvoidDFA(avoid)
+    acc = getattr(D, "accepting", lambda st: True)
     used = A.chars() | B.chars() | D.chars() | set(extra_chars)
     alpha = sorted(used) + pick_other(used, n_other)
     start = (A.init, B.init, D.init, "", "")
@@ -246,7 +275,7 @@ def equivalent(A: Chain, B: Chain, avoid=(), extra_chars="", n_other=1,
         cur = todo[i]
         i += 1
         a, b, d, u, v = cur
-        if u + A.final(a) != v + B.final(b):
+        if acc(d) and u + A.final(a) != v + B.final(b):
             w = _path(seen, cur)
             return False, w, len(seen)
         for c in alpha:
@@ -265,7 +294,13 @@ def equivalent(A: Chain, B: Chain, avoid=(), extra_chars="", n_other=1,
             if u2 and v2:
                 # diverged for good: any completion inside the domain is a witness
                 seen[nxt] = (cur, c)
-                return False, _path(seen, nxt), len(seen)
+                w = _path(seen, nxt)
+                if acc(d2):
+                    return False, w, len(seen)
+                comp = _complete(D, d2, alpha)
+                if comp is not None:
+                    return False, w + comp, len(seen)
+                continue
             if max(len(u2), len(v2)) > DELAY_CAP:
                 raise AnalysisError("transducer equivalence: output delay cap exceeded")
             if nxt not in seen:
@@ -274,6 +309,24 @@ def equivalent(A: Chain, B: Chain, avoid=(), extra_chars="", n_other=1,
                 if len(seen) > max_states:
                     raise AnalysisError("transducer equivalence: state limit exceeded")
     return True, None, len(seen)
+
+
+def _complete(D, d, alpha, limit=6):
+    """Shortest completion that brings the domain automaton to acceptance."""
+    acc = getattr(D, "accepting", lambda st: True)
+    frontier = [(d, "")]
+    for _ in range(limit):
+        nxt = []
+        for st, w in frontier:
+            for c in alpha:
+                s2 = D.step(st, c)
+                if s2 is None:
+                    continue
+                if acc(s2):
+                    return w + c
+                nxt.append((s2, w + c))
+        frontier = nxt
+    return None
 
 
 def _path(seen, st):
